@@ -19,6 +19,12 @@ mod syntax_sugar_remover;
 
 pub use parser_logic::parse_definition;
 
+/// Verification hook: exposes the comment stripper to the external harness.
+#[cfg(feature = "verif")]
+pub mod verif {
+    pub use crate::parser_logic::preprocess;
+}
+
 use include_logic::FileStack;
 use program_structure::ast::{Version, AST};
 use program_structure::report::{Report, ReportCollection};
